@@ -1069,6 +1069,91 @@ SPECS.append(dict(name="Main.write_all", group="Main2", file=MAINF, func="run", 
                   params=[("all_decrypted_sessions", "List (β × θ)")],
                   actions={"writer.writepkt(bytes(buf), ts)": "(buf, ts)"}, action_type="(β × θ)"))
 
+# quic_session.py set_tls_decryptors over a state record of its own (`QS3.St κ`: the three suite attributes, the two flags, the three
+# decryptor entries it writes, `self.keys`; κ = a key-log entry): the `match ciphersuite:` and everything after it as two definitions
+# (the rest, continued in each of the four cases, would be rendered four times). dev_quic_keys (group KeySched translates it on its
+# own) and the QuicDecryptor constructor are externals; the dict dev_quic_keys returns has `Option Bytes` values (the early entries).
+HSEL = "TLX.Quic.Session.HashSel"
+QS3_FIELDS = [("self.hash_fun", "hash_fun", f"Option {HSEL}"), ("self.cipher", "cipher", "Option TLX.Cipher.Alg"),
+              ("self.key_length", "key_length", "Option Nat"), ("self.can_decrypt", "can_decrypt", "Bool"),
+              ("self.early_traffic_keys", "early_traffic_keys", "Bool"),
+              ("self.decryptors['Handshake']", "dec_handshake", f"Option {QDEC}"),
+              ("self.decryptors['Application']", "dec_app", f"Option (List {QDEC})"),
+              ("self.decryptors['Early']", "dec_early", f"Option {QDEC}"),
+              ("self.keys", "keys", "Table Str; Option Bytes")]
+QS3_PLACES = [(k, f, t, "s") for k, f, t in QS3_FIELDS]
+GROUPS["QuicSess3"] = dict(imports=["TLX.PyRt", "TLX.Quic.Session"], decls=[], options=["set_option linter.unusedVariables false"])
+
+
+def qs3_state_decl():
+    return ("/-- the attributes of a `QuicSession` that `set_tls_decryptors` writes -/\nstructure QS3.St where\n"
+            + "".join(f"  {f} : {py2lean.ty(t)}\n" for _, f, t in QS3_FIELDS) + "  deriving DecidableEq, Repr\n")
+
+
+SPECS.append(dict(name="QS3.St", group="QuicSess3", kind="raw", file=QSF, func=None, gen=qs3_state_decl, theorem="QSess3.set_tls_decryptors_eq_model"))
+QS3_CONSTS = {"SHA256": (f"{HSEL}.sha256", HSEL), "SHA384": (f"{HSEL}.sha384", HSEL), "AESGCM": ("TLX.Cipher.Alg.aesgcm", "TLX.Cipher.Alg"),
+              "ChaCha20Poly1305": ("TLX.Cipher.Alg.chachaPoly", "TLX.Cipher.Alg"), "AESCCM": ("TLX.Cipher.Alg.aesccm", "TLX.Cipher.Alg")}
+SPECS.append(dict(name="QS3.select_suite", group="QuicSess3", file=QSF, func="QuicSession.set_tls_decryptors", theorem="QSess3.select_suite_eq_model",
+                  select={"start": "match ciphersuite:"}, params=[("ciphersuite", "Bytes")], exits=True,
+                  state=dict(type="QS3.St", param="st"), always_res=True, places=QS3_PLACES, consts=QS3_CONSTS))
+SPECS.append(dict(name="QS3.install", group="QuicSess3", file=QSF, func="QuicSession.set_tls_decryptors", theorem="QSess3.install_eq_model",
+                  select={"start": "session_keys = []", "end": "try:\n    self.decryptors['Early']"}, tparams=["κ"],
+                  params=[("client_random", "Bytes")], exits=True,
+                  state=dict(type="QS3.St", param="st"), always_res=True,
+                  places=QS3_PLACES + [("self.keylog", "keylog", "List κ", "r"), ("self.quic_version", "quic_version", QSV, "r")],
+                  locals={"session_keys": "List κ"},
+                  externals=[("key_random", "κ → Bytes"),
+                             ("dev_quic_keys", f"Option Nat → List κ → Option {HSEL} → {QSV} → Except PyRt.Err (List (List Nat × Option Bytes))"),
+                             ("mk_decryptor", f"List (Option Bytes) → Option TLX.Cipher.Alg → Bool → Except PyRt.Err {QDEC}")],
+                  consts={"bytes.fromhex(key.client_random)": ("(key_random key)", "Bytes"), "self.hash_fun()": ("{st}.hash_fun", f"Option {HSEL}")},
+                  calls={"dev_quic_keys": dict(lean="dev_quic_keys", args=["Option Nat", "List κ", f"Option {HSEL}", QSV],
+                                               ret="Table Str; Option Bytes", raises=True),
+                         "QuicDecryptor": dict(lean="mk_decryptor", params=["keys", "cipher", "early"],
+                                               args=["List (Option Bytes)", "Option TLX.Cipher.Alg", "Bool"], ret=QDEC, raises=True)}))
+
+# decryptor.py `Decryptor.__init__` with `get_cipher_type` and `parse_keys`, over a state record of its own (every attribute the
+# constructor assigns; an attribute it does not assign on some path keeps the value of the record it starts from). `keys` is a dict
+# with `bytes | None` values (dev_tls_13_keys gives None for a missing secret): `Table Str; Option Bytes`. Externals: the RC4 / ChaCha20
+# context (`Cipher(self.bulk_alg(key), mode=None).decryptor()`), the zlib objects. `bulk_mode`, `mac_alg`, `key_length` are stored, never read.
+D2_FIELDS = ([("self.bulk_alg", "bulk_alg", ALG), ("self.tls_version", "tls_version", RLV), ("self.mac_length", "mac_length", "Nat"),
+              ("self.tag_length", "tag_length", "Option Nat"), ("self.block_length", "block_length", "Nat"),
+              ("self.compression_method", "compression_method", "Nat"), ("self.encrypt_then_mac", "encrypt_then_mac", "Bool"),
+              ("self.cipher_type", "cipher_type", f"Option {CTY}")]
+             + [(f"self.{d}_{k}", f"{d}_{k}", "Option Bytes") for d in ("server", "client") for k in ("key", "iv", "mac")]
+             + [(f"self.{d}_{k}", f"{d}_{k}", "Option Bytes") for d in ("server", "client")
+                for k in ("handshake_key", "handshake_iv", "application_key", "application_iv")]
+             + [("self.server_seq", "server_seq", "Nat"), ("self.client_seq", "client_seq", "Nat"),
+                ("self.last_block_server", "last_block_server", "Option Bytes"), ("self.last_block_client", "last_block_client", "Option Bytes"),
+                ("self.server_cipher", "server_cipher", "Option (Bytes × Nat)"), ("self.client_cipher", "client_cipher", "Option (Bytes × Nat)"),
+                ("self.s_decompressor", "s_decompressor", "Option Unit"), ("self.c_decompressor", "c_decompressor", "Option Unit")])
+D2_PLACES = [(k, f, t, "s") for k, f, t in D2_FIELDS]
+GROUPS["Decrypt2"] = dict(imports=["TLX.PyRt", "TLX.RecordLayer"], decls=[], options=["set_option linter.unusedVariables false"])
+
+
+def d2_state_decl():
+    return ("/-- the attributes `Decryptor.__init__` assigns -/\nstructure Dec2.St where\n"
+            + "".join(f"  {f} : {py2lean.ty(t)}\n" for _, f, t in D2_FIELDS) + "  deriving DecidableEq, Repr\n")
+
+
+SPECS.append(dict(name="Dec2.St", group="Decrypt2", kind="raw", file=DF, func=None, gen=d2_state_decl, theorem="Decr2.init_eq_model"))
+D2_COMMON = dict(group="Decrypt2", file=DF, ret="None", state=dict(type="Dec2.St", param="st"), always_res=True, places=D2_PLACES,
+                 maybe_attrs=["self.cipher_type"], consts={**RLV_CONSTS, **ALG_CONSTS, **CTY_CONSTS})
+SPECS.append(dict(D2_COMMON, name="Dec2.get_cipher_type", func="Decryptor.get_cipher_type", params=[], theorem="Decr2.get_cipher_type_eq_model"))
+SPECS.append(dict(D2_COMMON, name="Dec2.parse_keys", func="Decryptor.parse_keys", params=[("keys", "Table Str; Option Bytes")],
+                  theorem="Decr2.parse_keys_eq_model"))
+SPECS.append(dict(D2_COMMON, name="Dec2.init", func="Decryptor.__init__", theorem="Decr2.init_eq_model",
+                  params=[("bulk_alg", ALG), ("bulk_mode", "Unit"), ("mac_alg", "Unit"), ("keys", "Table Str; Option Bytes"), ("tls_version", RLV),
+                          ("key_length", "Nat"), ("mac_length", "Nat"), ("tag_length", "Option Nat"), ("block_length", "Nat"),
+                          ("extensions", "Table Bytes; Bytes"), ("compression", "Nat")],
+                  ignore_writes=["self.bulk_mode", "self.mac_alg", "self.key_length"],
+                  externals=[("stream_ctx", f"{ALG} → Option Bytes → Except PyRt.Err (Bytes × Nat)")],
+                  consts={**RLV_CONSTS, **ALG_CONSTS, **CTY_CONSTS,
+                          "Cipher(self.bulk_alg(self.server_key), mode=None).decryptor()": ("stream_ctx {st}.bulk_alg {st}.server_key", "Bytes × Nat", "raises"),
+                          "Cipher(self.bulk_alg(self.client_key), mode=None).decryptor()": ("stream_ctx {st}.bulk_alg {st}.client_key", "Bytes × Nat", "raises"),
+                          "zlib.decompressobj(wbits=0)": ("()", "Unit")},
+                  state_calls={"self.get_cipher_type": dict(kind="shared", lean="Dec2.get_cipher_type", exts=[], args=[], ret="None"),
+                               "self.parse_keys": dict(kind="shared", lean="Dec2.parse_keys", exts=[], args=["Table Str; Option Bytes"], ret="None")}))
+
 THEOREMS = _uniq(theorem_of(s) for s in SPECS)
 
 
@@ -1089,8 +1174,8 @@ MODULES = group_modules(GROUPS)          # all groups (`TLX.Props.Translated` im
 
 # property → the groups whose translated functions its model functions are (what the check proves besides its own modules)
 CHECK_GROUPS = {
-    "C01": ["TlsSess", "Suites", "TlsSess2", "Decrypt"],
-    "C02": ["QuicDissect", "QuicSess", "Pn", "Varint", "Frames", "QuicDissect2", "QuicTls", "QuicSess2"],
+    "C01": ["TlsSess", "Suites", "TlsSess2", "Decrypt", "Decrypt2"],
+    "C02": ["QuicDissect", "QuicSess", "Pn", "Varint", "Frames", "QuicDissect2", "QuicTls", "QuicSess2", "QuicSess3"],
     "C03": ["TlsSess", "QuicDissect", "Varint", "QuicDissect2", "TlsSess2", "QuicSess2"],
     "C04": ["Demux", "QuicSess", "QuicDissect", "Main2"],
     "C05": ["Reasm", "Reasm2"],
@@ -1102,7 +1187,7 @@ CHECK_GROUPS = {
     "C11": ["Checksum"],
     "C13": ["TlsSess", "TlsSess2"],
     "C14": ["Suites"],
-    "C15": ["KeySched"],
+    "C15": ["KeySched", "QuicSess3", "Decrypt2"],
     "C16": ["Pn", "QuicSess2"],
     "C17": ["Varint", "Frames"],
     "C18": ["Demux", "Main2"],
@@ -1891,6 +1976,132 @@ def _kl_cases(rng, call):
     return out
 
 
+def _d2_cases(rng, call):
+    """Decryptor.__init__ (group Decrypt2) on an object made without it, with the real `cryptography` classes (ARC4 keys of 16 / 3 bytes
+    or None, `ChaCha20(key)` without a nonce); the attributes the constructor does not assign are sentinels on the Lean side and
+    missing on the Python side"""
+    import importlib
+    dm = importlib.import_module("tlexport.decryptor")
+    from tlexport.tlsversion import TlsVersion as TV
+    out = []
+    st = lambda x: "([" + ", ".join(str(ord(c)) for c in x) + "] : List Nat)"
+    ob = lambda x: "none" if x is None else f"(some {_b(x)})"
+    SENT = b"\xff"
+    algs = [(dm.AES, "aes"), (dm.AESGCM, "aesgcm"), (dm.AESCCM, "aesccm"), (dm.ChaCha20, "chacha20"), (dm.ChaCha20Poly1305, "chachaPoly"),
+            (dm.ARC4, "arc4"), (dm.ARC4, "arc4"), (dm.TripleDES, "tdes")]
+    vers = [(TV.SSL30, "ssl30"), (TV.TLS10, "tls10"), (TV.TLS11, "tls11"), (TV.TLS12, "tls12"), (TV.TLS13, "tls13"), (TV.TLS13, "tls13")]
+    ctys = {"EncryptionType.Stream_Cipher": "stream", "EncryptionType.Block_Cipher": "block", "EncryptionType.AEAD": "aead", "EncryptionType.Unknown": "unknown"}
+    n13 = ["client_handshake_iv", "server_handshake_iv", "client_application_iv", "server_application_iv", "client_handshake_traffic_secret",
+           "server_handshake_traffic_secret", "client_application_traffic_secret_0", "server_application_traffic_secret_0"]
+    nl = ["client_write_IV", "server_write_IV", "client_write_key", "server_write_key", "client_write_MAC_secret", "server_write_MAC_secret"]
+    for _ in range(6):
+        alg, ver = rng.choice(algs), rng.choice(vers)
+        kv = lambda: rng.choice([bytes([rng.randrange(256)]) * 16, bytes([rng.randrange(256)]) * 16, bytes(3), None])
+        d = {n_: kv() for n_ in (n13 if ver[1] == "tls13" else nl)}
+        if rng.random() < 0.15:
+            d.pop(rng.choice(list(d)))
+        tag = rng.choice([None, 8, 16])
+        exts = rng.choice([{}, {b"\x00\x16": b""}, {b"\x00\x17": b"", b"\x00\x16": b"x"}])
+        comp = rng.choice([0, 0, 0, 1])
+        me = object.__new__(dm.Decryptor)
+        k, v = call(dm.Decryptor.__init__, me, alg[0], None, None, d, ver[0], 16, 20, tag, 128, exts, comp)
+        g = lambda n_: getattr(me, n_, SENT)
+        ld = "[" + ", ".join(f"({st(n_)}, {ob(x)})" for n_, x in d.items()) + "]"
+        le = "[" + ", ".join(f"({_b(a)}, {_b(b_)})" for a, b_ in exts.items()) + "]"
+        S = "(some [255])"
+        st0 = ("(⟨TLX.Cipher.Alg.none, TLX.RecordLayer.Version.tls11, 0, none, 0, 7, false, none, " + ", ".join([S] * 14) + ", 9, 9, " + S + ", " + S + ", none, none, none, none⟩ : Dec2.St)")
+        ct = g("cipher_type")
+        e1 = (f"({'none' if ct is SENT else '(some TLX.RecordLayer.CType.' + ctys[str(ct)] + ')'}, {'none' if g('tag_length') in (SENT, None) else '(some ' + str(me.tag_length) + ')'}, "
+              f"{_bool(g('encrypt_then_mac') is True)}, PyRt.Err.{'fuel' if k == 'ok' else v}) "
+              f"({g('server_seq') if g('server_seq') is not SENT else 9}, {g('client_seq') if g('client_seq') is not SENT else 9}, "
+              f"{_bool(hasattr(me, 'server_cipher'))}, {_bool(hasattr(me, 'client_cipher'))}, {_bool(hasattr(me, 's_decompressor'))})")
+        e2 = "[" + ", ".join(ob(g(f"{a}_{b_}")) for a in ("server", "client") for b_ in ("key", "iv", "mac")) + "]"
+        e3 = "[" + ", ".join(ob(g(f"{a}_{b_}")) for a in ("server", "client") for b_ in ("handshake_key", "handshake_iv", "application_key", "application_iv")) + "]"
+        e4 = "[" + ", ".join(ob(g(n_)) for n_ in ("last_block_server", "last_block_client")) + "]"
+        out.append(("(fun alg ver d tag exts comp st0 e1 e1b (e2 e3 e4 : List (Option TLX.Bytes)) => (fun (r : PyRt.Res Dec2.St Unit) => "
+                    "let t := match r with | PyRt.Res.ok _ t => t | PyRt.Res.raised _ t => t; "
+                    "let e := match r with | PyRt.Res.ok _ _ => PyRt.Err.fuel | PyRt.Res.raised e _ => e; "
+                    "decide ((t.cipher_type, t.tag_length, t.encrypt_then_mac, e) = e1) && "
+                    "decide ((t.server_seq, t.client_seq, t.server_cipher.isSome, t.client_cipher.isSome, t.s_decompressor.isSome) = e1b) && "
+                    "decide ([t.server_key, t.server_iv, t.server_mac, t.client_key, t.client_iv, t.client_mac] = e2) && "
+                    "decide ([t.server_handshake_key, t.server_handshake_iv, t.server_application_key, t.server_application_iv, "
+                    "t.client_handshake_key, t.client_handshake_iv, t.client_application_key, t.client_application_iv] = e3) && "
+                    "decide ([t.last_block_server, t.last_block_client] = e4)) "
+                    "(Dec2.init (fun a key => match a with | TLX.Cipher.Alg.arc4 => (match key with | none => .error .type "
+                    "| some k => if k.length = 16 then .ok (k, 0) else .error .value) | _ => .error .type) "
+                    "alg () () d ver 16 20 tag 128 exts comp st0))",
+                    f"TLX.Cipher.Alg.{alg[1]} TLX.RecordLayer.Version.{ver[1]} {ld} {'none' if tag is None else f'(some {tag})'} {le} {comp} {st0} {e1} {e2} {e3} {e4}", "true"))
+    return out
+
+
+def _qs3_cases(rng, call):
+    """QuicSession.set_tls_decryptors (group QuicSess3: the two translated parts composed as the method composes them) with a toy
+    dev_quic_keys (a dict with some entries missing / `None`, UnboundLocalError without session keys) and a toy QuicDecryptor"""
+    import importlib
+    qs = importlib.import_module("tlexport.quic.quic_session")
+    out = []
+    names = ["server_handshake_key", "server_handshake_iv", "client_handshake_key", "client_handshake_iv",
+             "server_application_key", "server_application_iv", "client_application_key", "client_application_iv",
+             "server_application_sec", "client_application_sec", "client_early_key", "client_early_iv"]
+    st = lambda x: "([" + ", ".join(str(ord(c)) for c in x) + "] : List Nat)"
+    ob = lambda x: "none" if x is None else f"(some {_b(x)})"
+    hsel = {qs.SHA256: "TLX.Quic.Session.HashSel.sha256", qs.SHA384: "TLX.Quic.Session.HashSel.sha384"}
+    algs = {qs.AESGCM: "TLX.Cipher.Alg.aesgcm", qs.ChaCha20Poly1305: "TLX.Cipher.Alg.chachaPoly", qs.AESCCM: "TLX.Cipher.Alg.aesccm"}
+    saved = (qs.dev_quic_keys, qs.QuicDecryptor)
+    try:
+        for _ in range(5):
+            d = {}
+            for n_ in names:
+                r = rng.random()
+                if r < 0.85:
+                    d[n_] = bytes([rng.randrange(256)])
+                elif r < 0.93:
+                    d[n_] = None
+            cr = bytes([rng.randrange(3)])
+            keylog = [types.SimpleNamespace(client_random=bytes([rng.randrange(3)]).hex()) for _ in range(rng.randint(0, 3))]
+            cs = rng.choice([b"\x13\x01", b"\x13\x02", b"\x13\x03", b"\x13\x04", b"\x13\x05", b"\x13"])
+            me = types.SimpleNamespace(hash_fun=None, cipher=None, key_length=None, can_decrypt=True, early_traffic_keys=False,
+                                       decryptors={}, keys={}, keylog=keylog, quic_version=None)
+
+            def toy_keys(kl, sk, h, v):
+                if not sk:
+                    raise UnboundLocalError("client_handshake_key")
+                return dict(d)
+
+            def toy_dec(ks, cipher, early):
+                if cipher is None or any(k_ is None for k_ in ks):
+                    raise TypeError("key")
+                return (b"".join(ks), early)
+            qs.dev_quic_keys, qs.QuicDecryptor = toy_keys, toy_dec
+            k, v = call(qs.QuicSession.set_tls_decryptors, me, cr, cs)
+            ld = "[" + ", ".join(f"({st(n_)}, {ob(x)})" for n_, x in d.items()) + "]"
+            lk = "[" + ", ".join(_b(bytes.fromhex(x.client_random)) for x in keylog) + "]"
+            g = lambda n_: me.decryptors.get(n_)
+            app = g("Application")
+            e1 = ("(" + ("none" if me.hash_fun is None else f"(some {hsel[me.hash_fun]})") + ", " + ("none" if me.cipher is None else f"(some {algs[me.cipher]})")
+                  + f", {'none' if me.key_length is None else f'(some {me.key_length})'}, {_bool(me.can_decrypt)}, {_bool(me.early_traffic_keys)}, "
+                  + f"PyRt.Err.{'fuel' if k == 'ok' else v})")
+            e2 = (f"({ob(g('Handshake')[0] if g('Handshake') else None)}, {ob(app[0][0] if app else None)}, {ob(g('Early')[0] if g('Early') else None)}, "
+                  + "[" + ", ".join(st(n_) for n_ in me.keys) + "], [" + ", ".join(ob(x) for x in me.keys.values()) + "])")
+            # (the comparison is split in two: instance search gives up on one long tuple)
+            out.append(("(fun cs cr kl d e1 (e2 : Option TLX.Bytes × Option TLX.Bytes × Option TLX.Bytes × List (List Nat) × List (Option TLX.Bytes)) => (fun (r : PyRt.Res QS3.St PyRt.Exit) => "
+                        "let t := match r with | PyRt.Res.ok _ t => t | PyRt.Res.raised _ t => t; "
+                        "let e := match r with | PyRt.Res.ok _ _ => PyRt.Err.fuel | PyRt.Res.raised e _ => e; "
+                        "decide ((t.hash_fun, t.cipher, t.key_length, t.can_decrypt, t.early_traffic_keys, e) = e1) && "
+                        "decide (t.dec_handshake.map (·.client.key) = e2.1) && decide ((t.dec_app.getD []).head?.map (·.client.key) = e2.2.1) && "
+                        "decide (t.dec_early.map (·.client.key) = e2.2.2.1) && decide (t.keys.map (·.1) = e2.2.2.2.1) && decide (t.keys.map (·.2) = e2.2.2.2.2)) "
+                        "(match QS3.select_suite cs ⟨none, none, none, true, false, none, none, none, []⟩ with "
+                        "| PyRt.Res.ok PyRt.Exit.fall st1 => QS3.install (κ := TLX.Bytes) (fun k => k) "
+                        "(fun _ sk _ _ => if sk.length > 0 then .ok d else .error .unbound) "
+                        "(fun ks alg early => match alg with | none => .error .type | some a => if ks.any (·.isNone) then .error .type else "
+                        ".ok { alg := a, server := if early then none else some ⟨[], []⟩, client := ⟨(ks.map (·.getD [])).flatten, []⟩ }) "
+                        "cr kl TLX.Quic.Session.Version.v1 st1 | r => r))",
+                        f"{_b(cs)} {_b(cr)} {lk} {ld} {e1} {e2}", "true"))
+    finally:
+        qs.dev_quic_keys, qs.QuicDecryptor = saved
+    return out
+
+
 def _qs_cases(rng, call):
     """QuicSession.decrypt_packet / handle_frame / handle_quic_packet (group QuicSess2) on a session made without `__init__`, with toy
     decryptors, a toy `parse_frames` and toy `check_key_epoch` / `get_full_packet_number` / `set_largest_packet_number` — the same
@@ -2470,6 +2681,8 @@ def _cases(rng, n):
         out.extend(_qs_cases(rng, call))
         out.extend(_main_cases(rng, call))
         out.extend(_kl_cases(rng, call))
+        out.extend(_qs3_cases(rng, call))
+        out.extend(_d2_cases(rng, call))
         for _ in range(2):
             out.extend(_bld_cases(rng, call))
         # output builders
